@@ -96,7 +96,7 @@ func VerifLemma_C18D_SweepImage() {
 		got := r.f.fdp.SourceCodeInfo.Location
 		verifAssert(len(got) == len(want), "each file with source info loses exactly its own marked options (+ parents)")
 		for k := range want {
-			verifAssert(k < len(got) && got[k] == want[k], "survivors of each file are untouched and in order")
+			verifAssert(k < len(got) && vPathEq(got[k].Path, want[k].Path), "survivors of each file are untouched and in order")
 		}
 		if r.markFileOpt || r.markFieldOpt {
 			verifCover("a file is swept")
